@@ -35,13 +35,6 @@ def nontrivial(ops, tags):
     return any(o.startswith(("kill", "hskill")) for o in ops)
 
 
-def matches_known(k, ops, msg, tr):
-    if k.get("id") == "F11":
-        setup = [o for o in ops if o.startswith("setup ")]
-        return msg.startswith("tls-write-error-in-receive") and bool(setup) and " tls=1 " in setup[0] + " "
-    return False
-
-
 def case_ops(x, tls, role, T, kind, A, B, w, a, r, order, big, seed, hs=None):
     ops = ["setup x=%s tls=%d role=%s T=%d A=%d B=%d seed=%d rsz=4096" % (x, tls, role, T, A, B, seed)]
     if hs is None:
@@ -122,7 +115,7 @@ def gen(rng, tier):
         if A == 0 and "s" in order and x != "async":
             order = "r"
         add("tls", case_ops(x, 1, role, T, kind, A, 30 if A == 0 else rng.choice([0, 30]), 0, 0, 0, order, 0, rng.randrange(10**6), hs=kk))
-    # reproduction of open finding F11 (TLS server, client sends and closes before the session tickets are written)
+    # F11 (fixed by b68eb89): TLS server, client sends and closes before the server answered - the data must still arrive
     ops = case_ops("buffered", 1, "srv", 30, "close", 20000, 30000, 16385, 0, 0, "rs", 0, 4)
     add("tls", ops)
     ops = case_ops("async", 1, "srv", 0, "close", 0, 3000, 3000, 0, 0, "r", 0, 8)
